@@ -7,6 +7,11 @@ package validate
 
 // Literal typing must not panic on any value a decoder can produce.
 //@ sweep C16 typechecker.go +Validator.typeOfValue
+// Validating an entity or a request, and the helpers they use, must not panic for any well-formed
+// input. A Validator is built once around a resolved schema and never modified: its methods
+// assume that schema to be present (C16 quantifies over resolved schemas).
+//@ recvreq Validator self.schema != nil
+//@ sweep C16 entity.go request.go check_value.go request_env.go ext_funcs.go validator.go wellformed
 
 // Every literal value gets a type or an error; values that are not bool,
 // long, string or entity have no literal type (error, never a panic).
